@@ -121,7 +121,12 @@ def op_list(cfg, prop):
                 ('pop', k, v0), ('get', k, v1)]
     ops += [('len',), ('iter',), ('keys',), ('values',), ('items',), ('popitem',), ('clear',)]
     ops += [('popkeys', (k0, k1)), ('popkeys', (k1, k2)), ('popkeys', (k0, k1), 'd'), ('popkeys', (k2, k0), 'd'), ('popkeys', ()),
-            ('popkeys', (k1, k0), v0)]
+            ('popkeys', (k1, k0), v0),
+            # a key listed twice: without a default the call must fail and remove nothing
+            ('popkeys', (k0, k1, k0)), ('popkeys', (k1, k1), 'd')]
+    if BACKENDS[cfg['backend']][1] == 'sql':
+        # a second kind of value sqlite cannot store (OverflowError instead of an sqlite3 error)
+        ops += [('setitem', k0, archmc.BIGINT), ('update', ((k1, v0), (k2, archmc.BIGINT))), ('setdefault', k2, archmc.BIGINT)]
     ops += [('update', ((k0, v0), (k1, v1))), ('update_pairs', ((k1, v0), (k2, v1))), ('update', ((k0, v1), (k2, U))), ('update', ())]
     if all(key_ok_for_kw(k) for k in (k1, k2)):
         ops.append(('update_kw', ((k1, v1), (k2, v0))))
@@ -194,7 +199,7 @@ def apply_op(S, op, prop='C03'):
     nontrivial = pre != 'absent' and pre != '-'
     pre_model = dict(S.m)
     alias = _alias_involved(S, touched)
-    unenc = any(isinstance(x, archmc.Unencodable) for x in _flat(op[1:]))
+    unenc = any(isinstance(x, archmc.Unencodable) or (isinstance(x, int) and not isinstance(x, bool) and abs(x) >= 2 ** 63) for x in _flat(op[1:]))
     # a key with a path separator in it is touched by, or present during, the operation
     pathsep = any(isinstance(q, str) and os.sep in q for q in list(touched) + list(S.m.keys()))
 
